@@ -22,7 +22,19 @@ def run(ctx):
     ctx.do(F.rule_v1)
     ctx.do(F.rule_v2)
     ctx.do(F.rule_b1)
-    ctx.do(n1, ["geometry_tools/automata/fsa.py", "geometry_tools/automata/kbmag_utils.py"])
+    # N1 only for the construction / edit methods the statement names (the
+    # enumerators belong to C10 / C06)
+    edit = [(REL, "FSA." + m) for m in (
+        "__init__", "_from_graph_dict", "_build_in_dict", "_build_graph_dict",
+        "add_vertices", "add_edges", "delete_vertices", "delete_vertex",
+        "recurrent", "rename_generators", "remove_long_paths")] + [
+        (REL, "_from_gap_record"), (REL, "load_builtin"),
+        (REL, "free_automaton"), (REL, "_hidden_vertices"),
+        ("geometry_tools/automata/kbmag_utils.py", "build_dict")]
+    from ..rules.common import entries as _entries
+    ctx.do(n1, ["geometry_tools/automata/fsa.py",
+                "geometry_tools/automata/kbmag_utils.py"],
+           scope=set(_entries(ctx, edit)))
     ctx.do(CA.rule_c2, "FSA")
     ctx.do(F.rule_v1p)
     ctx.do(F.rule_rf1)
